@@ -12,6 +12,7 @@ import (
 	"sync"
 
 	connect "github.com/bufbuild/connect-go"
+	"google.golang.org/protobuf/proto"
 	"google.golang.org/protobuf/types/known/wrapperspb"
 )
 
@@ -299,6 +300,7 @@ func streamE2E(c *Ctx) {
 		}
 	}
 	protoCodecE2E(c)
+	foreignPeersE2E(c)
 	// a model-comparable op so that the stream is never empty for the differ
 	c.Emit("code.str 1", hx([]byte(connect.CodeCanceled.String())), false)
 }
@@ -377,4 +379,96 @@ func protoCodecE2E(c *Ctx) {
 		}
 	}
 	_ = http.MethodPost
+}
+
+// foreignPeersE2E: peers that are not connect-go but follow the protocol documents - forms the
+// library's own client and handler never produce: the bare gRPC content types (protobuf implied),
+// an explicit "identity" encoding header, and grpc-status spelled in lower case.
+func foreignPeersE2E(c *Ctx) {
+	want := [][]string{{"a"}, {"", "b", ""}, {strings.Repeat("x", 700)}}
+	// (a) requests from a foreign client to a real handler
+	for _, ct := range []string{"application/grpc", "application/grpc-web", "application/grpc+proto", "application/grpc-web+proto", "application/connect+proto"} {
+		for _, vals := range want {
+			var seen []string
+			h := connect.NewClientStreamHandler("/s/m", func(ctx context.Context, s *connect.ClientStream[wrapperspb.StringValue]) (*connect.Response[wrapperspb.StringValue], error) {
+				for s.Receive() {
+					seen = append(seen, s.Msg().Value)
+				}
+				return connect.NewResponse(&wrapperspb.StringValue{Value: "done"}), s.Err()
+			})
+			var body []byte
+			for _, v := range vals {
+				b, _ := proto.Marshal(&wrapperspb.StringValue{Value: v})
+				body = append(body, frame(0, b)...)
+			}
+			desc := fmt.Sprintf("foreign client, Content-Type %s, %d messages", ct, len(vals))
+			got := safely(func() string {
+				req := httptest.NewRequest(http.MethodPost, "/s/m", bytes.NewReader(body))
+				req.ProtoMajor, req.ProtoMinor, req.Proto = 2, 0, "HTTP/2.0"
+				req.Header.Set("Content-Type", ct)
+				if strings.Contains(ct, "grpc") {
+					req.Header.Set("Grpc-Encoding", "identity") // explicit identity is legal
+				}
+				rec := httptest.NewRecorder()
+				h.ServeHTTP(rec, req)
+				return fmt.Sprintf("status=%d seen=%q", rec.Code, seen)
+			})
+			c.Count("e2e:foreign-client")
+			if got != fmt.Sprintf("status=200 seen=%q", vals) {
+				c.Fail("e2e-foreign-peer", desc, got, "a conformant foreign client's messages did not reach user code intact and in order")
+			}
+		}
+	}
+	// (b) responses from a foreign server to a real client
+	for _, p := range []string{"grpc", "grpcweb", "connect"} {
+		for _, vals := range want {
+			var body []byte
+			for _, v := range vals {
+				b, _ := proto.Marshal(&wrapperspb.StringValue{Value: v})
+				body = append(body, frame(0, b)...)
+			}
+			header := http.Header{}
+			trailer := http.Header{}
+			var opts []connect.ClientOption
+			switch p {
+			case "grpc":
+				header.Set("Content-Type", "application/grpc")
+				header.Set("Grpc-Encoding", "identity")
+				trailer["Grpc-Status"] = []string{"0"}
+				opts = append(opts, connect.WithGRPC())
+			case "grpcweb":
+				header.Set("Content-Type", "application/grpc-web+proto")
+				header.Set("Grpc-Encoding", "identity")
+				body = append(body, frame(0x80, []byte("grpc-status: 0\r\n"))...)
+				opts = append(opts, connect.WithGRPCWeb())
+			default:
+				header.Set("Content-Type", "application/connect+proto")
+				header.Set("Connect-Content-Encoding", "identity")
+				body = append(body, frame(2, []byte("{}"))...)
+			}
+			desc := fmt.Sprintf("foreign server, %s, explicit identity encoding, %d messages", p, len(vals))
+			got := safely(func() string {
+				sc := &staticClient{status: 200, header: header, trailer: trailer, body: body}
+				cl := connect.NewClient[wrapperspb.StringValue, wrapperspb.StringValue](sc, "http://h/s/m", opts...)
+				s, err := cl.CallServerStream(context.Background(), connect.NewRequest(&wrapperspb.StringValue{}))
+				if err != nil {
+					return "call: " + err.Error()
+				}
+				var seen []string
+				for s.Receive() {
+					seen = append(seen, s.Msg().Value)
+				}
+				e := "ok"
+				if s.Err() != nil {
+					e = s.Err().Error()
+				}
+				_ = s.Close()
+				return fmt.Sprintf("seen=%q err=%s", seen, e)
+			})
+			c.Count("e2e:foreign-server")
+			if got != fmt.Sprintf("seen=%q err=ok", vals) {
+				c.Fail("e2e-foreign-peer", desc, got, "a conformant foreign server's messages did not reach the application intact and in order")
+			}
+		}
+	}
 }
